@@ -161,3 +161,6 @@ func VerifC13ForgetAnswers(c *Cache, q dns.Question) {
 		c.negative.Remove(key)
 	}
 }
+
+// VerifC13FailureOf exposes the failure cache of a Cache built by New.
+func VerifC13FailureOf(c *Cache) *FailureCache { return c.failure }
